@@ -88,6 +88,14 @@ func c13RtpPackets(r *rand.Rand) [][]byte {
 	mk(96, []byte{0xbe, 0xde, 0xff, 0xff, 1}, func(b []byte) []byte { b[0] |= 0x10; return b })
 	mk(96, []byte{0xbe, 0xde, 0, 0}, func(b []byte) []byte { b[0] |= 0x10; return b })
 	mk(96, good, func(b []byte) []byte { b[0] &= 0x3f; return b })
+	// header extension with every interesting word count (the length is counted in 32-bit words:
+	// counts ≥ 0x4000 overflow a 16-bit byte count), short and long packets
+	for _, words := range []int{1, 2, 0x3fff, 0x4000, 0x4001, 0x4002, 0x7fff, 0x8000, 0x8001, 0xc000, 0xfffe, 0xffff} {
+		for _, n := range []int{4, 12, 200, 1300} {
+			pl := append([]byte{0xbe, 0xde, byte(words >> 8), byte(words)}, rb(n)...)
+			mk([]uint8{96, 97}[r.Intn(2)], pl, func(b []byte) []byte { b[0] |= 0x10; return b })
+		}
+	}
 	for _, pt := range []uint8{0, 8, 14, 95, 96, 97, 98, 101, 127} {
 		mk(pt, rb(r.Intn(40)), nil)
 	}
@@ -107,6 +115,39 @@ func c13RtpPackets(r *rand.Rand) [][]byte {
 	for t := 190; t < 215; t++ {
 		out = append(out, []byte{0x80, byte(t), 0, 1, 0, 0, 0, 7})
 		out = append(out, []byte{0x80, byte(t)})
+	}
+	return out
+}
+
+// c13RtpSequences: short ordered runs of packets on one track (consecutive sequence numbers,
+// shared timestamp) whose later members are only reached through depacketiser state left by
+// the earlier ones: fragments announced longer than they are, continuations without headers.
+func c13RtpSequences(r *rand.Rand) [][][]byte {
+	var out [][][]byte
+	seq := uint16(r.Intn(60000))
+	run := func(pt uint8, payloads ...[]byte) {
+		ts := r.Uint32()
+		var pk [][]byte
+		for k, pl := range payloads {
+			pk = append(pk, ref.BuildRtp(ref.RtpPkt{PT: pt, Seq: seq, Ts: ts, Ssrc: 7, Marker: k == len(payloads)-1, Payload: pl}))
+			seq++
+		}
+		out = append(out, pk)
+	}
+	fill := func(n int) []byte { b := make([]byte, n); r.Read(b); return b }
+	// AAC (RFC 3640 hbr): AU-headers-length 16 bits, one AU header announcing `size` bytes
+	aacFirst := func(size, present int) []byte {
+		return append([]byte{0, 16, byte(size >> 5), byte(size << 3)}, fill(present)...)
+	}
+	for _, second := range [][]byte{nil, {0}, {0, 0}, {0, 0, 1, 2, 3}, {0, 16}, {0, 16, 0xff}, {0, 8, 1}, {0xff, 0xff}, aacFirst(10, 10), aacFirst(2000, 5)} {
+		run(97, aacFirst(1000, 50), second)
+		run(97, aacFirst(1000, 50), second, aacFirst(1000, 900))
+		run(97, aacFirst(8191, 1), second, second)
+	}
+	// H.264 FU-A / H.265 FU: start, odd middles, end
+	for _, mid := range [][]byte{nil, {0x7c}, {0x7c, 0x05}, {0x7c, 0x45}, {0x7c, 0x85, 1}, {0x65}, {0x18, 0, 1, 0x67}} {
+		run(96, append([]byte{0x7c, 0x85}, fill(20)...), mid, append([]byte{0x7c, 0x45}, fill(5)...))
+		run(96, append([]byte{0x62, 0x01, 0x93}, fill(20)...), mid, append([]byte{0x62, 0x01, 0x53}, fill(5)...))
 	}
 	return out
 }
@@ -216,6 +257,17 @@ func c13Inputs(c *fw.Ctx, i int, s *srv.Server, bgName string) []c13Input {
 					}
 				}
 			}
+			if stage == 3 {
+				for _, sq := range c13RtpSequences(r) {
+					for _, ch := range []int{0, 2} {
+						d := append([]byte(nil), b...)
+						for _, p := range sq {
+							d = append(d, dollar(ch, p)...)
+						}
+						addTcp("rtsp/interleaved/stateful-sequence", s.RtspAddr(), d)
+					}
+				}
+			}
 			// player side: interleaved data sent by a subscriber
 			var pb []byte
 			pb = append(pb, rtspReq("DESCRIBE", url(bgName), 1, []string{"Accept: application/sdp"}, nil)...)
@@ -292,6 +344,14 @@ func c13Inputs(c *fw.Ctx, i int, s *srv.Server, bgName string) []c13Input {
 					rc.SendUdp(tr, false, p)
 					rc.SendUdp(tr, true, p)
 				}
+			}
+			for _, sq := range c13RtpSequences(r) {
+				for tr := 0; tr < 2; tr++ {
+					for _, p := range sq {
+						rc.SendUdp(tr, false, p)
+					}
+				}
+				time.Sleep(time.Millisecond)
 			}
 			time.Sleep(30 * time.Millisecond)
 			return nil
